@@ -396,37 +396,49 @@ def run_case(acc, judge, prop, source, spec, op_factory=None, case_no=0):
         judge(acc, "history:parent-pointer-set-later", spec, m2, idx, sem_t, sem_c, tags, cls3,
               dict(payload, history=f"parent of {child.name} set after a first analysis"), op)
     # history: an execution that raises in the middle of the traversal (a relation that temporarily holds something
-    # that is not a Feature), the model is repaired AND extended below an early feature, the same object analyses it
+    # that is not a Feature - at the end of the tree, at the end and at the start of the root's relations), the model
+    # is repaired AND extended somewhere else, the same operation object analyses it
     if op is not None and case_no % 5 == 2 and len(S.feature_names(spec)) >= 3:
         import copy
-        r = rand.rng("semops-midfail", S.digest(spec))
-        m3 = S.build(spec)
-        es = copy.deepcopy(spec)
-        live, specs_f = [], list(S.features(es["root"]))
-        stack = [m3.root]
-        while stack:
-            f = stack.pop()
-            live.append(f)
-            for rel in reversed(f.relations):
-                stack.extend(reversed(rel.children))
-        with_rels = [k for k, f in enumerate(live) if f.relations]
-        if with_rels:
-            late = live[with_rels[-1]]
-            bad_rel = late.relations[-1]
-            bad_rel.children.append("not a feature")
+        from flamapy.metamodels.fm_metamodel.models import Feature, Relation
+        for variant in ("late", "root-last", "root-first"):
+            m3 = S.build(spec)
+            es = copy.deepcopy(spec)
+            live = []
+            stack = [m3.root]
+            while stack:
+                f = stack.pop()
+                live.append(f)
+                for rel in reversed(f.relations):
+                    stack.extend(reversed(rel.children))
+            with_rels = [f for f in live if f.relations]
+            if not with_rels:
+                break
+            if variant == "late":
+                bad_rel, at = with_rels[-1].relations[-1], None
+            elif variant == "root-last":
+                bad_rel, at = m3.root.relations[-1], None
+            else:
+                bad_rel, at = m3.root.relations[0], 0
+            if at is None:
+                bad_rel.children.append("not a feature")
+            else:
+                bad_rel.children.insert(0, "not a feature")
             raised = False
             try:
                 op.execute(m3).get_result()
             except Exception:  # noqa: BLE001 - the malformed model is outside the property's domain
                 raised = True
-            bad_rel.children.pop()
-            from flamapy.metamodels.fm_metamodel.models import Feature, Relation
-            early = live[with_rels[0]] if live[with_rels[0]] is not late or len(with_rels) == 1 else live[with_rels[0]]
-            tgt = early.relations[0].children[0]
-            tgt.add_relation(Relation(tgt, [Feature("Later9", [])], 0, 1))
-            for fs in specs_f:
-                if fs["name"] == tgt.name:
-                    fs.setdefault("rels", []).append({"min": 0, "max": 1, "children": [{"name": "Later9", "rels": []}]})
+            bad_rel.children.remove("not a feature")
+            # extend below a feature that is not a member of the repaired relation (first and last such, pre-order)
+            cands = [f for f in live if f is not m3.root and not any(c is f for c in bad_rel.children)] or [m3.root]
+            for q, tgt in enumerate({id(cands[0]): cands[0], id(cands[-1]): cands[-1]}.values()):
+                nm = f"Later9{q}"
+                tgt.add_relation(Relation(tgt, [Feature(nm, [])], 0, 1))
+                for fs in S.features(es["root"]):
+                    if fs["name"] == tgt.name:
+                        fs.setdefault("rels", []).append({"min": 0, "max": 1, "children": [{"name": nm, "rels": []}]})
+                        break
             idx4, sem_t4, sem_c4 = reference(es, acc)
             tags4 = model_tags(es)
             cls4 = "history:after-a-failed-execution" + ("|" + "+".join(tags4) if tags4 else "")
@@ -434,7 +446,7 @@ def run_case(acc, judge, prop, source, spec, op_factory=None, case_no=0):
                 acc.count("history:first-execution-raised-mid-traversal")
             judge(acc, "history:after-a-failed-execution", es, m3, idx4, sem_t4, sem_c4, tags4, cls4,
                   {"source": "history:after-a-failed-execution", "spec": es if len(S.feature_names(es)) <= 80 else None,
-                   "before_edit": payload["spec"]}, op)
+                   "before_edit": payload["spec"], "variant": variant}, op)
     # history: a feature is moved by attaching it to its new parent FIRST and removing it from the old one afterwards
     if op is not None and case_no % 5 == 3 and len(S.feature_names(spec)) >= 3:
         import copy
